@@ -306,19 +306,31 @@ def crossing(ctx):
             law_val = sym.defs[sg[0]][1] if isinstance(sym.defs[sg[0]][1], Rat) \
                 else val
             s_, canon = sym._signed(law_val)
-        lhs = A('Y' + hidx) + sigma * A('U[-1]') * law_val
+        # slope in the last space of the trace: a forward trace ends on the
+        # image surface, whose record holds the slope AFTER it (it refracts
+        # into its own post medium), so the image-space slope is record [-2];
+        # a reverse trace ends on the object surface, which leaves the ray
+        # unchanged ([-1] == [-2])
+        uidx = '[-1]' if rev else '[-2]'
+        alt = '[-2]' if rev else None
+        lhs = A('Y' + hidx) + sigma * A('U' + uidx) * law_val
         if sg:
             ok = sym.is_zero(lhs) or sym.is_zero(
-                A('Y' + hidx) - sigma * A('U[-1]') * law_val)
+                A('Y' + hidx) - sigma * A('U' + uidx) * law_val)
         else:
             ok = sym.is_zero(lhs)
+        if not ok and alt:
+            ok = sym.is_zero(A('Y' + hidx) + sigma * A('U' + alt) * law_val)
         if ok:
-            res.ok(f'{name}: y{hidx} + ({"-" if rev else "+"}1) u[-1] d == 0')
+            res.ok(f'{name}: y{hidx} + ({"-" if rev else "+"}1) u{uidx} d '
+                   f'== 0')
         else:
             res.fail(ctx.finding(
                 'CROSSING', f, f.node,
                 f'{name} = {out} does not satisfy the transfer law with the '
-                f'records of its own trace', construct=f'{name} crossing law'))
+                f'records of its own trace (height record {hidx}, slope of '
+                f'the ray arriving in the last space, record {uidx})',
+                construct=f'{name} crossing law'))
         # launched ray: parallel unit-height ray for cardinal points, axial
         # point of the stop for pupils
         call = info['calls'][0]
@@ -812,10 +824,8 @@ def object_position(ctx):
                              'built', construct='Paraxial.trace traces rays'))
     g = P.func('Paraxial._get_object_position')
     res.saw(g)
-    # finite object + angular field is outside the quantifier of every property
-    # (C03/C09: infinite object <-> angle, finite object <-> object height):
-    # that arm is not an obligation.
-    for inf, ft in ((True, 'angle'), (False, 'object_height')):
+    for inf, ft in ((True, 'angle'), (False, 'object_height'),
+                    (False, 'angle')):
         def choose(test, ev, inf=inf, ft=ft):
             s = unparse(test)
             if 'is_infinite' in s:
@@ -844,17 +854,33 @@ def object_position(ctx):
             zz = ZERO if inf else z0
             # for an infinite object the start plane is the first surface and
             # EPL is measured from it
-            ok = sym.eq(y0, A('y1') - tanf * (A('EPL') - (
-                A('self.optic.surface_group.positions[1]') * ZERO if inf
-                else z0)))
             if inf:
-                # the launch plane is the first surface (EPL is measured
-                # from it)
-                ok = ok and len(zatoms) == 1 and \
-                    zatoms[0].endswith('surface_group.positions[1]') and \
+                # parallel bundle at the field angle, aimed at the pupil
+                # point: y0 + tan(theta) (EPL - z0) = y1 for the launch plane
+                # z0 that was chosen, and the aiming distance EPL - z0 (EPL is
+                # measured from the first surface, at z = 0) must not vanish
+                # for any pupil position: EPL - z0 = EPL + |EPL| + c, c > 0
+                p1 = 'self.optic.surface_group.positions[1]'
+                z00 = Rat(z0.n.subst(p1, Poly()), z0.d.subst(p1, Poly()))
+                dist = A('EPL') - z00
+                margin = dist - A('EPL') - sym.absv(A('EPL'))
+                y00 = Rat(y0.n.subst(p1, Poly()), y0.d.subst(p1, Poly()))
+                ok = sym.eq(y00, A('y1') - tanf * dist) and \
+                    margin.is_const() and \
+                    margin.n.constant() / margin.d.constant() > 0
+            else:
+                # the object point is fixed by the field alone (it does not
+                # move with the pupil coordinate) and lies where the chief
+                # ray, inclined by the field angle at the pupil centre, meets
+                # the object plane
+                ok = sym.eq(y0, -tanf * (A('EPL') - z0)) and \
+                    len(zatoms) == 1 and \
+                    zatoms[0].endswith('surface_group.positions[0]') and \
                     rat_eq(z0, A(zatoms[0]))
-            what = ('angular field: y0 = y1 - tan(theta) (EPL - z0) '
-                    f'({"infinite" if inf else "finite"} object)')
+            what = ('angular field: y0 = y1 - tan(theta) (EPL - z0), '
+                    'EPL - z0 > 0 (infinite object)' if inf else
+                    'angular field: y0 = -tan(theta) (EPL - z_object) '
+                    '(finite object)')
         if ok:
             res.ok('_get_object_position ' + what)
         else:
@@ -920,7 +946,9 @@ def chief_ray(ctx):
         if len(got) != 3:
             raise AnalysisError('chief_ray: traces not reached')
         (a0, k0), (a1, k1), (a2, k2) = got
-        mf = A('self.optic.fields.max_y_field')
+        # normalised field coordinates refer to the maximum RADIAL field (what
+        # the ray generator launches for H = 1), not the signed maximum of y
+        mf = A('self.optic.fields.max_field')
         # linear rescaling: slope u1 = u0 * target / achieved
         if ft == 'angle':
             tgt = sym.sin(mf * A('pi') / C(180)) / sym.cos(mf * A('pi') / C(180))
